@@ -118,9 +118,11 @@ def build(variant="san", repo=None, harnesses=None, complex_=False, verbose=True
             sys.stderr.write("BUILD FAILED: %s\n%s\n" % (src, out[-6000:]))
         raise SystemExit(3)
     # prune stale objects
+    # only stale versions of the translation units compiled in THIS call are removed (another call may have built other harnesses)
     keep = set(lib_objs) | set(sim_objs) | set(h_objs.values())
+    names = set(os.path.basename(f).rsplit("-", 1)[0] for f in keep)
     for f in glob.glob(os.path.join(odir, "*.o")):
-        if f not in keep:
+        if f not in keep and os.path.basename(f).rsplit("-", 1)[0] in names:
             try: os.remove(f)
             except OSError: pass
     bins = {}
